@@ -184,6 +184,7 @@ type caseRun struct {
 	res     []string
 	actions []string
 	pos     []string
+	est     map[string]uint32 // generator's estimate of each key's current window end (aims the ticks)
 }
 
 func hdr(h *fasthttp.ResponseHeader, k string) string {
@@ -195,7 +196,7 @@ func hdr(h *fasthttp.ResponseHeader, k string) string {
 }
 
 func newCase(c cfgIn, th []thrIn) *caseRun {
-	cr := &caseRun{cfg: c, th: th, s: NewSched(len(th)), res: make([]string, len(th))}
+	cr := &caseRun{cfg: c, th: th, s: NewSched(len(th)), res: make([]string, len(th)), est: map[string]uint32{}}
 	cr.cfg.t0 = utils.Timestamp()
 	var mw fiber.Handler
 	if c.dflt {
@@ -275,6 +276,7 @@ func (cr *caseRun) do(a string) bool {
 		if len(a) < 2 || n >= len(cr.th) || cr.s.PosOf(n) != '-' {
 			return false
 		}
+		cr.noteStart(n)
 		cr.s.Start(n, cr.body(n))
 	case 'r':
 		if len(a) < 2 || n >= len(cr.th) || !cr.s.Release(n, 0) {
@@ -297,6 +299,25 @@ func (cr *caseRun) do(a string) bool {
 	cr.actions = append(cr.actions, a)
 	cr.pos = append(cr.pos, cr.s.Pos())
 	return true
+}
+
+// noteStart keeps the generator's estimate of the window end of the thread's key (exact for the
+// built-in store, where the whole critical section runs inside the start action; a heuristic
+// otherwise). It only steers genTick, it is never part of the observation.
+func (cr *caseRun) noteStart(t int) {
+	th := cr.th[t]
+	if th.next || (cr.cfg.mf && th.max == 0) {
+		return
+	}
+	now, e := utils.Timestamp(), uint32(cr.cfg.exp)
+	w := cr.est[th.key]
+	switch {
+	case w == 0 || (cr.cfg.alg == "F" && now >= w) || (cr.cfg.alg == "S" && now >= w+e):
+		w = now + e
+	case cr.cfg.alg == "S" && now >= w:
+		w += e
+	}
+	cr.est[th.key] = w
 }
 
 // drain finishes whatever is left: start unstarted threads, release parked ones (lowest id first).
@@ -355,13 +376,13 @@ func genCfg(r *gen.Rand) cfgIn {
 	c.exp = gen.Pick(r, []int{1, 2, 3, 3, 4, 5, 7, 10})
 	c.max = gen.Pick(r, []int{1, 1, 2, 2, 3, 4, 0})
 	c.mf = r.Chance(1, 2)
-	switch r.Intn(6) {
-	case 0:
+	switch r.Intn(8) {
+	case 0, 1:
 		c.sf = true
-	case 1:
+	case 2, 3:
 		c.ss = true
-	case 2:
-		if r.Chance(1, 4) {
+	case 4:
+		if r.Chance(1, 2) {
 			c.sf, c.ss = true, true
 		}
 	}
@@ -397,8 +418,29 @@ func genThread(r *gen.Rand, c cfgIn) thrIn {
 	return t
 }
 
-func genTick(r *gen.Rand, e int) int {
-	d := gen.Pick(r, []int{1, 1, e - 1, e, e, e + 1, 2*e - 1, 2 * e, 2*e + 1, 3 * e})
+// genTick picks how many seconds pass: half of the time aimed at an edge of the (estimated) window of
+// one of the keys - its last second, its end, one past it; for the sliding window also the same three
+// points one window later (where the previous window stops being weighed) - otherwise a multiple of
+// the window length give or take a second.
+func (cr *caseRun) genTick(r *gen.Rand) int {
+	e := cr.cfg.exp
+	if len(cr.est) > 0 && r.Chance(1, 2) {
+		keys := []string{"a", "b", "c", "i"}
+		var ws []int
+		for _, k := range keys {
+			if w, ok := cr.est[k]; ok {
+				ws = append(ws, int(w))
+			}
+		}
+		if len(ws) > 0 {
+			w := gen.Pick(r, ws)
+			tg := gen.Pick(r, []int{w - 1, w, w, w + 1, w + r.Intn(e), w + r.Intn(e), w + e - 1, w + e, w + e, w + e + 1, w + 2*e})
+			if d := tg - int(utils.Timestamp()); d >= 1 {
+				return d
+			}
+		}
+	}
+	d := gen.Pick(r, []int{1, 1, 1, 1 + r.Intn(e), e - 1, e, e, e + 1, 2*e - 1, 2 * e, 2*e + 1, 3 * e})
 	if d < 1 {
 		d = 1
 	}
@@ -408,6 +450,9 @@ func genTick(r *gen.Rand, e int) int {
 func runGenerated(w *gen.Writer, id string, r *gen.Rand) {
 	c := genCfg(r)
 	conc := r.Chance(2, 5) && !c.dflt
+	// long handlers: requests sit in the downstream handler while time passes and other requests come
+	// and go, then finish (skip options: the hit is taken back from the current / previous / a gone window)
+	longh := !conc && !c.dflt && (c.sf || c.ss) && r.Chance(1, 2)
 	var th []thrIn
 	n := 3 + r.Intn(10)
 	if conc {
@@ -418,9 +463,12 @@ func runGenerated(w *gen.Writer, id string, r *gen.Rand) {
 	}
 	cr := newCase(c, th)
 	w.Count("alg=" + c.alg + ",st=" + c.st)
-	if conc {
+	switch {
+	case conc:
 		w.Count("mode=conc")
-	} else {
+	case longh:
+		w.Count("mode=longhandler")
+	default:
 		w.Count("mode=seq")
 	}
 	if c.dflt {
@@ -430,10 +478,63 @@ func runGenerated(w *gen.Writer, id string, r *gen.Rand) {
 	if r.Chance(1, 4) {
 		tickP = 6
 	}
-	if !conc {
+	inP := 6 // 1 in inP: time passes while a request sits in the critical section / the handler
+	if (c.sf || c.ss) && r.Chance(1, 2) {
+		inP = 3 // handler durations that cross window ends matter for the skip options
+	}
+	capLive := gen.Pick(r, []int{2, 3, 4, 4, 6})
+	if longh {
+		next := 0
+		var inH []int
+		for step := 0; step < 300 && (next < n || len(inH) > 0); step++ {
+			x := r.Intn(10)
+			switch {
+			case x < 3:
+				cr.do("t" + strconv.Itoa(cr.genTick(r)))
+			case x < 7 && next < n && len(inH) < 5:
+				t := next
+				next++
+				cr.do("s" + strconv.Itoa(t))
+				for p := cr.s.PosOf(t); p == 'G' || p == 'S'; p = cr.s.PosOf(t) {
+					if !cr.do("r" + strconv.Itoa(t)) {
+						break
+					}
+				}
+				if cr.s.PosOf(t) == 'H' {
+					inH = append(inH, t)
+				}
+			case len(inH) > 0:
+				// 1..3 of the waiting handlers return; their take-backs (second critical sections) interleave
+				k := 1 + r.Intn(3)
+				var grp []int
+				for ; k > 0 && len(inH) > 0; k-- {
+					i := r.Intn(len(inH))
+					grp = append(grp, inH[i])
+					inH = append(inH[:i], inH[i+1:]...)
+				}
+				for guard := 0; guard < 100; guard++ {
+					var pk []int
+					for _, t := range grp {
+						if parked(cr.s.PosOf(t)) {
+							pk = append(pk, t)
+						}
+					}
+					if len(pk) == 0 {
+						break
+					}
+					if r.Chance(1, 8) {
+						cr.do("t" + strconv.Itoa(cr.genTick(r)))
+					}
+					if !cr.do("r" + strconv.Itoa(gen.Pick(r, pk))) {
+						break
+					}
+				}
+			}
+		}
+	} else if !conc {
 		for t := 0; t < n; t++ {
 			if r.Intn(10) < tickP {
-				cr.do("t" + strconv.Itoa(genTick(r, c.exp)))
+				cr.do("t" + strconv.Itoa(cr.genTick(r)))
 			}
 			if cr.st != nil && c.st == "L" && r.Chance(1, 4) {
 				cr.do("g")
@@ -441,8 +542,8 @@ func runGenerated(w *gen.Writer, id string, r *gen.Rand) {
 			cr.do("s" + strconv.Itoa(t))
 			for parked(cr.s.PosOf(t)) {
 				// time passing inside the critical section or the handler
-				if r.Chance(1, 6) {
-					cr.do("t" + strconv.Itoa(genTick(r, c.exp)))
+				if r.Chance(1, inP) {
+					cr.do("t" + strconv.Itoa(cr.genTick(r)))
 				}
 				if !cr.do("r" + strconv.Itoa(t)) {
 					break
@@ -468,17 +569,17 @@ func runGenerated(w *gen.Writer, id string, r *gen.Rand) {
 			}
 			x := r.Intn(20)
 			switch {
-			case x < 1:
-				cr.do("t" + strconv.Itoa(genTick(r, c.exp)))
-			case x < 2 && c.st == "L":
+			case x < 2 || (x < 4 && inP == 3 && strings.ContainsRune(p, 'H')):
+				cr.do("t" + strconv.Itoa(cr.genTick(r)))
+			case x < 5 && x >= 4 && c.st == "L":
 				cr.do("g")
-			case (x < 8 || len(pk) == 0) && next < n && live < 4:
+			case (x < 10 || len(pk) == 0) && next < n && live < capLive:
 				cr.do("s" + strconv.Itoa(next))
 				next++
 			case len(pk) > 0:
 				cr.do("r" + strconv.Itoa(gen.Pick(r, pk)))
 			default:
-				if next < n && live >= 4 && len(pk) == 0 {
+				if next < n && live >= capLive && len(pk) == 0 {
 					// everything live is blocked: cannot happen with a correct mutex; bail out
 					step = 400
 				}
